@@ -37,7 +37,7 @@ def scrut(docs, args=()):
             res = [(e.get("location"), e["result"]["kind"]) for e in json.loads(p.stdout)]
         except Exception:
             res = None
-        return p.returncode, res, (p.stderr or "")[-300:]
+        return p.returncode, res, (p.stderr or "")[:4000]
     finally:
         shutil.rmtree(d, ignore_errors=True)
 
@@ -57,26 +57,34 @@ def cram(tests):
     return out
 
 
+def first_error(stderr):
+    for l in (stderr or "").split("\n"):
+        if "Error:" in l:
+            return l.split("Error:", 1)[1].strip()[:200]
+    return (stderr or "").strip()[:200]
+
+
 def run_jobs(jobs):
     """the documents are independent runs of the binary in directories of their own: a small pool"""
     from concurrent.futures import ThreadPoolExecutor
 
     def one(j):
-        prop, label, docs, pred, want_exit, args, expect = j
+        prop, label, docs, pred, want_exit, args, expect = j[:7]
+        cls = j[7] if len(j) > 7 else None
         rc, res, err = scrut(docs, args)
         got = None if res is None else [k for _, k in res]
         if want_exit is None:
             # "is never reported as succeeded": the run fails (50: results say so; 1: scrut gave up on the document, nothing is reported)
             if (rc == 50 and got is not None and pred(got)) or (rc == 1 and (got is None or pred(got))):
                 return None
-            return {"why": f"{prop}: {label}: results {got} exit {rc}, expected {expect} and a failing exit status", "case": {"docs": docs, "args": list(args)}}
+            return {"class": cls, "why": f"{prop}: {label}: results {got} exit {rc}, expected {expect} and a failing exit status", "case": {"docs": docs, "args": list(args)}}
         if got is None or not pred(got) or rc != want_exit:
-            return {"why": f"{prop}: {label}: results {got} exit {rc}, expected {expect} exit {want_exit}" + (f" [{err.strip()}]" if res is None else ""),
+            return {"class": cls, "why": f"{prop}: {label}: results {got} exit {rc}, expected {expect} exit {want_exit}" + (f" [{first_error(err)}]" if res is None else ""),
                     "case": {"docs": docs, "args": list(args)}}
         return None
     with ThreadPoolExecutor(max_workers=6) as ex:
         out = list(ex.map(one, jobs))
-    return len(jobs), [o for o in out if o][:6]
+    return len(jobs), [o for o in out if o]
 
 
 OK_DOC = ("zz_other.md", md([("echo other", ["other"], "")]))
@@ -117,7 +125,22 @@ def c15(deep):
             tests = [(f"echo t{i}", ["WRONG"] if i == 0 else [f"t{i}"], "") for i in range(n)]
             doc = (("c_fail.md", md(tests)) if fmt == "md" else ("c_fail.t", cram(tests)))
             check(f"{fmt}, {n} test case(s), the first fails, no skip code", [doc, OK_DOC], ["malformed_output"] + ["success"] * n, 50)
+        if fmt == "cram":
+            # the single-script execution keeps running after a test case has exited with the skip code: what comes later must not change the verdict
+            t = [("echo t0", ["t0"], ""), ("(exit 80)", [], ""), ("sleep 6", [], "")]
+            jobs.append(("C15", "cram, test case 2 exits with the skip code, test case 3 then runs into --timeout-seconds 2", [("e_skip_then_timeout.t", cram(t)), OK_DOC],
+                         (lambda g: g == ["skipped"] * 3 + ["success"]), 0, ("--timeout-seconds", "2"), "3 x skipped + success", "cram-skip-then-timeout"))
+            t = [("echo t0", ["t0"], ""), ("(exit 80)", [], ""), ("kill -9 $$", [], "")]
+            jobs.append(("C15", "cram, test case 2 exits with the skip code, test case 3 then kills the shell", [("f_skip_then_killed.t", cram(t)), OK_DOC],
+                         (lambda g: g == ["skipped"] * 3 + ["success"]), 0, (), "3 x skipped + success", "cram-skip-then-killed"))
+            t = [("trap 'exit 80' EXIT", [], ""), ("echo fine", ["fine"], "")]
+            jobs.append(("C15", "cram, no test case exits with the skip code but the script as a whole does (trap on EXIT)", [("g_script_exit.t", cram(t)), OK_DOC],
+                         (lambda g: g == ["success"] * 3), 0, (), "3 x success", "cram-script-exit-code"))
         if fmt == "md":
+            # Markdown documents run with --cram-compat (single-script execution): a skip code set for one test case
+            t = [("echo t0", ["t0"], ""), ("(exit 5)", [], "{skip_document_code: 5}")]
+            jobs.append(("C15", "md under --cram-compat, test case 2 exits with its own skip code 5", [("h_compat.md", md(t)), OK_DOC],
+                         (lambda g: g == ["skipped"] * 2 + ["success"]), 0, ("--cram-compat",), "2 x skipped + success", "cram-per-test-code"))
             tests = [("echo t0", ["t0"], ""), ("(exit 80)", ["[80]"], ""), ("echo t2", ["t2"], "")]
             check("md, exit 80 expected and produced while the document-wide skip code is 81", [("d_other_code.md", md(tests, "---\ndefaults:\n  skip_document_code: 81\n---\n\n")), OK_DOC],
                   ["success"] * 4, 0)
@@ -156,6 +179,16 @@ def c14(deep):
             return all(x == "skipped" for x in g[k + 1:3]) and all(x in ("success", "timeout") for x in g[:k])
         check(f"cram, slow test case at position {pos + 1}, --timeout-seconds 2", [("a_slow.t", cram(tests)), OK_DOC], cram_ok, 50, ("--timeout-seconds", "2"),
               "a timeout, then only skipped, then the other document's success")
+    # the limit is on the command, not on its output pipes: a command that closes / redirects its streams is still aborted
+    tests = [("echo t0", ["t0"], ""), ("exec >/dev/null 2>&1; sleep 4", [], "{timeout: 1s}"), ("echo t2", ["t2"], "")]
+    check("md, the slow test case redirects its own streams (`exec >/dev/null 2>&1; sleep 4`) under a per-test timeout of 1s", [("f_closed.md", md(tests)), OK_DOC],
+          lambda g: g == ["success", "timeout", "skipped", "success"], 50, (), "['success', 'timeout', 'skipped', 'success']")
+    jobs[-1] = jobs[-1] + ("closed-streams",)
+    # Cram: the test case that was running when the document limit struck is the one that failed, the finished ones before it passed
+    tests = [("echo t0", ["t0"], ""), ("echo t1", ["t1"], ""), ("sleep 6", [], "")]
+    check("cram, the third test case is the slow one, --timeout-seconds 2", [("g_position.t", cram(tests)), OK_DOC],
+          lambda g: g == ["success", "success", "timeout", "success"], 50, ("--timeout-seconds", "2"), "['success', 'success', 'timeout', 'success']")
+    jobs[-1] = jobs[-1] + ("cram-timeout-position",)
     for vname, front, inline, args in [("no limits given", "", "", ()), ("generous per-test and document limits", "---\ntotal_timeout: 30s\n---\n\n", "{timeout: 20s}", ("--timeout-seconds", "40")),
                                        ("document unlimited", "---\ntotal_timeout: 0s\n---\n\n", "", ())]:
         tests = [("sleep 0.3; echo t0", ["t0"], inline), ("echo t1", ["t1"], inline)]
@@ -181,6 +214,27 @@ def c05(deep):
     return run_jobs(jobs)
 
 
+def c14_aborted():
+    """`is aborted`: after the timeout has been reported the rest of the command must not run (a marker file it would create stays away)"""
+    import time
+    import uuid
+    mark = os.path.join(tempfile.gettempdir(), "verif-e2e-mark-" + uuid.uuid4().hex)
+    tests = [(f"sleep 2; touch {mark}", [], "{timeout: 1s}")]
+    docs = [("h_aborted.md", md(tests))]
+    rc, res, err = scrut(docs, ())
+    got = None if res is None else [k for _, k in res]
+    time.sleep(2.5)
+    ran_on = os.path.exists(mark)
+    if ran_on:
+        os.unlink(mark)
+    if got != ["timeout"] or rc != 50:
+        return {"class": None, "why": f"C14: md, `sleep 2; touch <marker>` under a per-test timeout of 1s: results {got} exit {rc}, expected ['timeout'] exit 50", "case": {"docs": docs, "args": []}}
+    if ran_on:
+        return {"class": "not-aborted", "why": "C14: md, `sleep 2; touch <marker>` under a per-test timeout of 1s: reported as timeout after 1 s, but the command ran on: the marker file appeared afterwards (the shell is not killed)",
+                "case": {"docs": docs, "args": []}}
+    return None
+
+
 TABLE = {"C05": c05, "C14": c14, "C15": c15}
 
 
@@ -189,9 +243,18 @@ def run(prop, deep):
     if not ok:
         return {"coverage": {"error": err[-300:]}, "inconclusive": "the scrut binary does not build offline from the current tree"}
     cases, bad = TABLE[prop](deep)
+    if prop == "C14":
+        cases += 1
+        b = c14_aborted()
+        if b:
+            bad.append(b)
     viol = []
-    for b in bad[:1]:
-        viol.append({"unit": "e2e", "clause": "bounded.e2e." + prop.lower(), "message": "the real scrut binary, run on a generated document, contradicts the statement",
+    # one violation per class (a document family may carry a class, so that a listed known finding suppresses exactly that family)
+    firsts = {}
+    for b in bad:
+        firsts.setdefault(b.get("class"), b)
+    for cls, b in sorted(firsts.items(), key=lambda kv: kv[0] or ""):
+        viol.append({"unit": "e2e", "clause": "bounded.e2e." + prop.lower() + ("." + cls if cls else ""), "message": "the real scrut binary, run on a generated document, contradicts the statement",
                      "fn": None, "rendered": b["why"][:1500], "clause_text": "scrut test -r json + exit status", "where": "vx/e2e.py",
                      "enum": {"cmd": ["e2e", prop], "case": b}})
     return {"coverage": {"label": "BOUNDED end-to-end run of the real binary (not counted as discharged)", "binary": "cargo build --bin scrut from the working tree",
